@@ -384,6 +384,48 @@ pub fn c02_cases(tier: Tier) -> Vec<Case> {
             }
         }
     }
+    // (a') bounds written as arithmetic over UNTYPED literals: the value they denote depends on the type the
+    // literals are inferred at - the inner type, as in `val < <expr>`. Re-typing the expression (a cast, a typed
+    // `const`) evaluates it at the i32 / f64 defaults first.
+    {
+        let f32v = |x: f32| Val::f32(x);
+        let exprs: Vec<(Inner, &str, Val)> = vec![
+            (Inner::Int(IntTy::U64), "(1 << 31)", Val::U(1 << 31)),
+            (Inner::Int(IntTy::I64), "(1 << 31)", Val::I(1 << 31)),
+            (Inner::Int(IntTy::U32), "(1 << 31)", Val::U(1 << 31)),
+            (Inner::Int(IntTy::U64), "(1 << 40) + 1", Val::U((1 << 40) + 1)),
+            (Inner::Int(IntTy::U8), "!0 / 2", Val::U(127)),
+            (Inner::Int(IntTy::U16), "!0 / 2", Val::U(32767)),
+            (Inner::Int(IntTy::U8), "!0 >> 1", Val::U(127)),
+            (Inner::Int(IntTy::I8), "!0 / 2", Val::I(0)),
+            (Inner::Int(IntTy::U8), "(200 + 55)", Val::U(255)),
+            (Inner::Int(IntTy::U16), "(256 * 255)", Val::U(65280)),
+            (Inner::Int(IntTy::I16), "-(100 * 300)", Val::I(-30000)),
+            (Inner::Int(IntTy::U128), "(1 << 100)", Val::U(1 << 100)),
+            (Inner::F32, "(1.0 - 0.9)", f32v(1.0f32 - 0.9f32)),
+            (Inner::F32, "(16777216.0 + 1.0)", f32v(16777216.0f32 + 1.0f32)),
+            (Inner::F32, "(0.1 + 0.2)", f32v(0.1f32 + 0.2f32)),
+            (Inner::F64, "(0.1 + 0.2)", Val::f64(0.1f64 + 0.2f64)),
+            (Inner::F64, "(1.0 - 0.9)", Val::f64(1.0f64 - 0.9f64)),
+        ];
+        for (inner, expr, v) in exprs {
+            for k in 0..4 {
+                if (k == 0 && matches!(inner, Inner::Int(t) if v == t.max())) || (k == 2 && matches!(inner, Inner::Int(t) if v == t.min())) {
+                    continue;
+                }
+                let name = format!("Ut{n}");
+                let mut sem = Decl::new(&name, inner);
+                sem.validation = Validation::Std(vec![mk(k, Bound::lit(v.clone()))]);
+                let kind = ["greater", "greater_or_equal", "less", "less_or_equal"][k];
+                let attr = format!("validate({kind} = {expr}), derive(Debug)");
+                let mut c = raw_case("decl", "either", "spelling:untyped-literal-arithmetic", &attr, &format!("pub struct {name}({});", inner.ty_src()), "");
+                c.text = format!("#[nutype({attr})] pub struct {name}({});", inner.ty_src());
+                c.probes = probes_for(&sem, &name, &neighbourhood(inner, &[v.clone()]));
+                cases.push(c);
+                n += 1;
+            }
+        }
+    }
     // (b) layouts: all 24 block orders, trailing commas, flags at every position
     let base = {
         let mut d = Decl::new("Lay", Inner::Str);
@@ -1400,5 +1442,74 @@ pub fn c09x_cases(_tier: Tier) -> Vec<Case> {
         }
         cases.push(c);
     }
+    cases
+}
+
+/// C14, compile-or-behave part: integer declarations whose valid range the macro cannot know from the bounds alone
+/// (a custom sanitizer next to them). Refused at compile time -> fine. Accepted -> the generator must still reach
+/// every value the constructor can produce: all byte strings of length 0, 1 and 2 are fed, the produced set is
+/// compared with `{ try_new(raw) : raw in the whole inner type }` (8/16-bit types only).
+pub fn c14x_cases(_tier: Tier) -> Vec<Case> {
+    let mut cases = vec![];
+    let decls: Vec<(&str, &str, bool)> = vec![
+        ("sanitize(with = |v: u8| v / 2), validate(greater_or_equal = 10, less_or_equal = 20), derive(Debug, Arbitrary)", "u8", false),
+        ("sanitize(with = ulib::to_even), validate(greater = 0, less = 30), derive(Debug, Arbitrary)", "u8", false),
+        ("sanitize(with = |v: i8| v.wrapping_neg()), validate(greater_or_equal = 1, less_or_equal = 5), derive(Debug, Arbitrary)", "i8", false),
+        ("sanitize(with = ulib::clamp_10_100), validate(less = 50), derive(Debug, Arbitrary)", "u16", false),
+        ("sanitize(with = ulib::wrap_add1), validate(greater = 250), derive(Debug, Arbitrary)", "u8", false),
+        // controls the generator supports: bounds only, sanitizer only, one-sided negative bound
+        ("validate(greater = 3, less_or_equal = 40), derive(Debug, Arbitrary)", "u8", true),
+        ("sanitize(with = ulib::to_even), derive(Debug, Arbitrary)", "u8", true),
+        ("validate(less = -100), derive(Debug, Arbitrary)", "i8", true),
+        ("validate(greater_or_equal = 65000), derive(Debug, Arbitrary)", "u16", true),
+    ];
+    for (k, (attr, ty, control)) in decls.iter().enumerate() {
+        let name = format!("Cx{k}");
+        let mut c = raw_case(if *control { "control" } else { "decl" }, if *control { "accept" } else { "either" }, "arbitrary-completeness-with-unknowable-range", attr, &format!("pub struct {name}({ty});"), "");
+        c.text = format!("#[nutype({attr})] pub struct {name}({ty});");
+        let ctor = if attr.contains("validate(") { format!("{name}::try_new(raw).ok()") } else { format!("Some({name}::new(raw))") };
+        let code = format!(
+            "{{ std::panic::set_hook(Box::new(|_| {{}})); let mut produced = std::collections::BTreeSet::new(); let mut panics = 0u32; {{ let mut feed = |data: &[u8]| {{ match std::panic::catch_unwind(|| {{ let mut u = arbitrary::Unstructured::new(data); <{name} as arbitrary::Arbitrary>::arbitrary(&mut u).map(|t| t.into_inner()) }}) {{ Ok(Ok(v)) => {{ produced.insert(v); }} Ok(Err(_)) => {{}} Err(_) => panics += 1 }} }}; feed(&[]); for a in 0..=255u8 {{ feed(&[a]); for b in 0..=255u8 {{ feed(&[a, b]); }} }} }} let _ = std::panic::take_hook(); let mut missing: Vec<{ty}> = vec![]; for raw in <{ty}>::MIN..=<{ty}>::MAX {{ if let Some(t) = {ctor} {{ let v = t.into_inner(); if !produced.contains(&v) {{ missing.push(v); }} }} }} missing.sort(); missing.dedup(); if missing.is_empty() {{ \"complete\".to_string() }} else {{ format!(\"INCOMPLETE: {{}} obtainable value(s) never produced, e.g. {{:?}} (panics: {{}})\", missing.len(), &missing[..missing.len().min(6)], panics) }} }}"
+        );
+        c.probes.push((code, "all inputs of length 0..=2 => complete".to_string()));
+        cases.push(c);
+    }
+    cases
+}
+
+/// C03, compile-or-behave part: `derive(Default)` WITHOUT a `default = ..` attribute. Refused at compile time
+/// (today's behaviour) -> fine. Accepted -> `Default::default()` is one more entry point and must agree with the
+/// constructor applied to whatever value it starts from; the only candidate is the inner type's own default:
+/// `default()` must equal `try_new(Inner::default())`, panicking exactly when that is an `Err`.
+pub fn c03x_cases(_tier: Tier) -> Vec<Case> {
+    let mut cases = vec![];
+    let decls: Vec<(&str, &str, &str)> = vec![
+        ("validate(predicate = ulib::vec_nonempty), derive(Debug, Default)", "Vec<i64>", ""),
+        ("sanitize(with = |mut v: Vec<i64>| { v.push(1); v }), derive(Debug, Default)", "Vec<i64>", ""),
+        ("validate(greater = 0), derive(Debug, Default)", "u8", ""),
+        ("sanitize(with = ulib::clamp_10_100), derive(Debug, Default)", "i32", ""),
+        ("validate(greater = 0.0), derive(Debug, Default)", "f64", ""),
+        ("sanitize(with = ulib::or_anon), derive(Debug, Default)", "String", ""),
+        ("validate(not_empty), derive(Debug, Default)", "String", ""),
+        ("validate(predicate = |p| *p > 1024), derive(Debug, Default)", "Port", "pub type Port = u16;"),
+        ("validate(predicate = ulib::point_on_diag), sanitize(with = |p: Point| Point { x: p.x + 1, y: p.y }), derive(Debug, Default)", "Point", ""),
+        ("derive(Debug, Default)", "i64", ""),
+    ];
+    for (k, (attr, ty, extra)) in decls.iter().enumerate() {
+        let name = format!("Dx{k}");
+        let mut c = raw_case("decl", "either", "default-without-default-attribute", attr, &format!("pub struct {name}({ty});"), extra);
+        c.text = format!("{extra} #[nutype({attr})] pub struct {name}({ty});");
+        let ctor = if attr.contains("validate(") { format!("{name}::try_new(<{ty} as Default>::default()).ok().map(|t| t.into_inner())") } else { format!("Some({name}::new(<{ty} as Default>::default()).into_inner())") };
+        let code = format!(
+            "{{ std::panic::set_hook(Box::new(|_| {{}})); let d = std::panic::catch_unwind(|| <{name} as Default>::default().into_inner()).ok(); let _ = std::panic::take_hook(); let c = {ctor}; if d == c {{ \"consistent\".to_string() }} else {{ format!(\"INCONSISTENT: default() = {{:?}} (None = panic), constructor on the inner default = {{:?}} (None = Err)\", d, c) }} }}"
+        );
+        c.probes.push((code, "Default::default() vs constructor => consistent".to_string()));
+        cases.push(c);
+    }
+    // control: the catalogue crate itself must build
+    let mut c = raw_case("control", "accept", "default-with-attribute", "validate(greater = 0), derive(Debug, Default), default = 5", "pub struct DxCtl(u8);", "");
+    c.text = "#[nutype(validate(greater = 0), derive(Debug, Default), default = 5)] pub struct DxCtl(u8);".to_string();
+    c.probes.push(("format!(\"{:?}\", DxCtl::default().into_inner())".to_string(), "default => 5".to_string()));
+    cases.push(c);
     cases
 }
